@@ -179,5 +179,19 @@ PROPS["C10"] = {
     "replay_help": "case.series: written series (id, tags by key index), case.queries: SQL text, group-by keys, selected ids and per-series group values as returned, case.hops: model history. correspondence_code 1 = selected set differs from the model's index evaluation, 2 = group values differ; oracle_code 101 = selected set differs from evaluating the condition on every series' tags, 102 = group values differ from the series' own values, 900 = the query failed or panicked",
 }
 
+PROPS["C08"] = {
+    "harness": "c08",
+    "props_files": ["C08/Props.v"],
+    "n": {"quick": 100, "thorough": 1500},
+    "timeout": {"quick": 1200, "thorough": 3400},
+    "level_text": "Theorem (Coq, no axioms): the replication channel of one WAL partition as a state machine - leader log, follower log, the leader-side consumer group of the follower, replicator state, stream, follower liveness - with the three-way handshake of IsReady coded case by case, Consume / GetMessage / Send / ReplicaLog / Recv / Ack of one replica step, and the faults: Send failure, Recv failure, follower restart, follower log loss, leader directory restored from an older copy (lost tail), follower offline/online with a blocked step, leader GC. For EVERY sequence of these events inside the discipline (no leader append between a tail loss and the next completed handshake): every position both sides hold has the same bytes, everything the follower holds is what the leader stored at that position, the follower's range has no holes, the leader's group never acknowledges beyond what the follower ever appended, and a completed handshake leaves the next index to send equal to the first position the follower lacks, held by the leader, with the follower not ahead of the leader's log. Tied to the code by driving a real leader partition (fan-out queue + remote replicator) and a real follower partition behind the real ReplicaHandler one replica step at a time over an in-process stream with injected failures.",
+    "level_note": "Logs are the abstract logs of C05/C06 (held range = (ack, appended]); message bytes are abstracted to message identities (the harness writes the identity into the bytes and compares what Get returns). Outside the discipline the statement is refuted in the model (C08_diverge_after_tail_loss_refuted) and replayed on the code as a known finding: positions carry no epoch.",
+    "rule": "histories of 10-60 events: leader append 28%, replica step 40% (Send fails 12%, Recv fails 12%), explicit handshake, follower restart 5%, follower log loss 4%, leader GC 5%, leader snapshot 4% / restore 4%, follower offline 3% / online 3% (a step issued while the follower is offline and the replicator not ready blocks and completes at the next online event); directed histories: follower exactly one message ahead of a restored leader, writes at the lost positions before the handshake (undisciplined), follower log loss after leader GC, blocked step; after every event both logs are read at every position from -1 to max(appended)+2 and all positions of queue, group and replicator state are recorded; non-trivial = appends, steps and >= 2 kinds of fault; distinct = different JSON",
+    "trusted": ["partial: the free-running replica loop and real gRPC transport are replaced by single steps over an in-process stream; a follower Put error and IgnoreMessage paths are modelled but not provoked"],
+    "assumptions": ["run_ok true init evs = true (no leader append between LeaderRestore and the next completed handshake)"],
+    "statement_status": {"follower_copy_safe": "proved inside the discipline", "outside": "refuted (known finding C08:tail-loss-then-writes-diverge)", "comparison before the repair": "refuted (C08_one_ahead_unrepaired_refuted; fixed in the code)"},
+    "replay_help": "case.events: append / step(send_ok, recv_ok) / handshake / frestart / flose / gc / snapshot / restore / offline / online. correspondence_code n>0 = after the n-th event some position of queue/group/replicator state or a read differs from the model (800: history on the wrong side of the discipline); oracle_code 101 = both sides read different bytes at one position, 102 = the follower's readable range has a hole, 103 = the follower holds bytes the leader never stored at that position, 104 = the leader group acknowledged a position the follower was never seen holding, 105 = after a completed handshake the group's consumed position is not the follower's appended position",
+}
+
 for _pid in PROPS:
     NOT_APPLICABLE.pop(_pid, None)
